@@ -397,13 +397,13 @@ func (fs Findings) Match(v *Violation) *Finding {
 // Minimisation (tape shrinking in the Hypothesis / rapid style)
 
 type shrinkState struct {
-	s       *Scenario
-	tier    string
-	seed    uint64
-	target  *Violation
-	known   Findings
-	execs   int
-	maxExec int
+	s        *Scenario
+	tier     string
+	seed     uint64
+	target   *Violation
+	known    Findings
+	execs    int
+	maxExec  int
 	deadline time.Time
 }
 
@@ -559,26 +559,26 @@ func Minimise(s *Scenario, tier string, seed uint64, plan, sched []uint64, targe
 // Replay files
 
 type ReplayFile struct {
-	Property   string       `json:"property"`
-	Tier       string       `json:"tier"`
-	VerifSeed  uint64       `json:"verif_seed"`
-	RunIndex   int          `json:"run_index"`
-	RunSeed    uint64       `json:"run_seed"`
-	Plan       []uint64     `json:"plan"`
-	Sched      []uint64     `json:"sched"`
-	PlanTrace  []tape.Entry `json:"plan_trace,omitempty"`
-	SchedTrace []tape.Entry `json:"sched_trace,omitempty"`
-	Violation  *Violation   `json:"violation"`
-	EventHash  string       `json:"event_hash"`
-	Trace      []string     `json:"trace,omitempty"`
-	Sample     any          `json:"case,omitempty"`
-	Minimised  bool         `json:"minimised"`
-	ShrinkExec int          `json:"shrink_execs"`
-	OrigPlanLen  int        `json:"orig_plan_len"`
-	OrigSchedLen int        `json:"orig_sched_len"`
-	RepoHash   string       `json:"repo_hash,omitempty"`
-	FromSeed   bool         `json:"from_seed,omitempty"`
-	Known      string       `json:"known_finding,omitempty"`
+	Property     string       `json:"property"`
+	Tier         string       `json:"tier"`
+	VerifSeed    uint64       `json:"verif_seed"`
+	RunIndex     int          `json:"run_index"`
+	RunSeed      uint64       `json:"run_seed"`
+	Plan         []uint64     `json:"plan"`
+	Sched        []uint64     `json:"sched"`
+	PlanTrace    []tape.Entry `json:"plan_trace,omitempty"`
+	SchedTrace   []tape.Entry `json:"sched_trace,omitempty"`
+	Violation    *Violation   `json:"violation"`
+	EventHash    string       `json:"event_hash"`
+	Trace        []string     `json:"trace,omitempty"`
+	Sample       any          `json:"case,omitempty"`
+	Minimised    bool         `json:"minimised"`
+	ShrinkExec   int          `json:"shrink_execs"`
+	OrigPlanLen  int          `json:"orig_plan_len"`
+	OrigSchedLen int          `json:"orig_sched_len"`
+	RepoHash     string       `json:"repo_hash,omitempty"`
+	FromSeed     bool         `json:"from_seed,omitempty"`
+	Known        string       `json:"known_finding,omitempty"`
 }
 
 func WriteReplay(path string, rf *ReplayFile) error {
@@ -613,45 +613,45 @@ type ViolationRecord struct {
 }
 
 type Batch struct {
-	Property     string            `json:"property"`
-	Tier         string            `json:"tier"`
-	VerifSeed    uint64            `json:"verif_seed"`
-	Worker       int               `json:"worker"`
-	Workers      int               `json:"workers"`
-	Evaluations  int               `json:"evaluations"`
-	Events       uint64            `json:"events"`
-	NonTrivial   int               `json:"nontrivial_runs"`
-	FPs          []string          `json:"fps"`
-	SchedFPs     []string          `json:"sched_fps"`
-	Faults       map[string]int    `json:"faults"`
-	Probes       map[string]int    `json:"probes"`
+	Property     string              `json:"property"`
+	Tier         string              `json:"tier"`
+	VerifSeed    uint64              `json:"verif_seed"`
+	Worker       int                 `json:"worker"`
+	Workers      int                 `json:"workers"`
+	Evaluations  int                 `json:"evaluations"`
+	Events       uint64              `json:"events"`
+	NonTrivial   int                 `json:"nontrivial_runs"`
+	FPs          []string            `json:"fps"`
+	SchedFPs     []string            `json:"sched_fps"`
+	Faults       map[string]int      `json:"faults"`
+	Probes       map[string]int      `json:"probes"`
 	TagSets      map[string][]string `json:"tag_sets"`
-	Gauges       map[string]int    `json:"gauges"`
-	Samples      []any             `json:"samples"`
-	Violations   []ViolationRecord `json:"violations"`
-	KnownHits    map[string]int    `json:"known_hits"`
-	KnownSample  map[string]string `json:"known_sample"`
-	DetChecks    int               `json:"determinism_rechecks"`
-	DetMismatch  []string          `json:"determinism_mismatches"`
-	ControlRuns  int               `json:"control_reruns"`
-	ControlBad   []string          `json:"control_mismatches"`
-	HarnessError []string          `json:"harness_errors"`
-	Truncated    bool              `json:"truncated"`
-	WallS        float64           `json:"wall_s"`
-	FirstSeeds   []uint64          `json:"first_seeds"`
+	Gauges       map[string]int      `json:"gauges"`
+	Samples      []any               `json:"samples"`
+	Violations   []ViolationRecord   `json:"violations"`
+	KnownHits    map[string]int      `json:"known_hits"`
+	KnownSample  map[string]string   `json:"known_sample"`
+	DetChecks    int                 `json:"determinism_rechecks"`
+	DetMismatch  []string            `json:"determinism_mismatches"`
+	ControlRuns  int                 `json:"control_reruns"`
+	ControlBad   []string            `json:"control_mismatches"`
+	HarnessError []string            `json:"harness_errors"`
+	Truncated    bool                `json:"truncated"`
+	WallS        float64             `json:"wall_s"`
+	FirstSeeds   []uint64            `json:"first_seeds"`
 }
 
 type BatchOpts struct {
-	Tier       string
-	VerifSeed  uint64
-	Worker     int
-	Workers    int
-	Runs       int // total runs in the batch across workers
-	MaxSec     float64
-	ReplayDir  string
-	Known      Findings
-	MaxViol    int
-	HangFile   string
+	Tier      string
+	VerifSeed uint64
+	Worker    int
+	Workers   int
+	Runs      int // total runs in the batch across workers
+	MaxSec    float64
+	ReplayDir string
+	Known     Findings
+	MaxViol   int
+	HangFile  string
 }
 
 // RunSeedFor derives the seed of run i.
